@@ -173,3 +173,54 @@ class get_gradient_transform:
         ),
     }
     native = False  # needs lxml elements; covered natively by the end-to-end glyph harness
+
+
+# ---- gradient stops: every opacity that applies multiplies in; the palette index survives ----
+
+
+@contract("picosvg.svg_meta.number_or_percentage", props=["C01", "C15"], dep=True)
+class number_or_percentage_stub:
+    assumed = True
+    args = {"s": Str}
+    returns = Real
+    ensures = {"function-of-the-text": lambda s, result: result == ufn("svg_number", "real", s)}
+    native = False
+    note = "the number an SVG <number> | <percentage> attribute denotes (picosvg parser)"
+
+
+@contract("nanoemoji.colors.Color.fromstring", props=["C01", "C15"])
+class color_fromstring_stub:
+    assumed = True
+    local_only = True  # in force only for contracts that list it under `stubs` (the real parser is interpreted everywhere else)
+    args = {"cls": Opaque("any"), "s": Str}
+    returns = Record("nanoemoji.colors.Color")
+    ensures = {}
+    native = False
+    note = "css colour text -> Color(red, green, blue, alpha, palette_index) (string parsing: bounded tier: hex/name/var(--colorN, c) forms, conflicts, opacity multiplication)"
+
+
+_FS = "nanoemoji.colors.Color.fromstring"
+_NP = "picosvg.svg_meta.number_or_percentage"
+
+
+@contract("nanoemoji.color_glyph._color_stop", props=["C01", "C15", "C02"])
+class color_stop:
+    stubs = ("nanoemoji.colors.Color.fromstring",)
+    args = {
+        "stop_el": OneOf(
+            Obj(attrib=Const({"offset": Str, "stop-color": Str, "stop-opacity": Str})),
+            Obj(attrib=Const({"offset": Str, "stop-color": Str})),
+        ),
+        "shape_opacity": Real,
+    }
+    ensures = {
+        # colour alpha x stop-opacity (default 1) x the shape's opacity
+        "every-opacity-multiplies-in": lambda stop_el, shape_opacity, result, calls: result.color.alpha
+        == calls[_FS][0].result.alpha * (ufn("svg_number", "real", stop_el.attrib["stop-opacity"]) if "stop-opacity" in stop_el.attrib else ufn("svg_number", "real", "1")) * shape_opacity,
+        # the colour itself -- and a declared palette index -- is the stop-color's
+        "colour-and-index-kept": lambda result, calls: (result.color.red, result.color.green, result.color.blue) == (calls[_FS][0].result.red, calls[_FS][0].result.green, calls[_FS][0].result.blue)
+        and same(result.color.palette_index, calls[_FS][0].result.palette_index),
+        "parsed-from-the-stop-colour": lambda stop_el, calls: calls[_FS][0].args.s == stop_el.attrib["stop-color"],
+        "offset": lambda stop_el, result: result.stopOffset == ufn("svg_number", "real", stop_el.attrib["offset"]),
+    }
+    native = False
